@@ -316,9 +316,13 @@ Definition st_is_init (x : inst) : bool := match i_st x with SFinal => false | _
 Definition push_err (es : list (side * err)) (e : side * err) : list (side * err) := firstn 5 (e :: es).
 
 (* the public operation returns r *)
+Definition op_done_k (k : opkind) (t : nat) (g : gst) (l : lst) (r : result) (hs : list (nat * scfg)) (nr : nat) (es : list ev)
+  : option (gst * lst * list ev) :=
+  Some (add_log g t k r, mkL (prog l) Idle None KOpen None 0 hs nr (rets l ++ [r]), es ++ [ERet r]).
+
 Definition op_done (t : nat) (g : gst) (l : lst) (r : result) (hs : list (nat * scfg)) (nr : nat) (es : list ev)
   : option (gst * lst * list ev) :=
-  Some (add_log g t (cur_kind l) r, mkL (prog l) Idle None KOpen None 0 hs nr (rets l ++ [r]), es ++ [ERet r]).
+  op_done_k (cur_kind l) t g l r hs nr es.
 
 (* open_or_create's loop tail: elapsed >= creation_timeout ? fail : sleep and call open again *)
 Definition ooc_tail (P : params) (t : nat) (g : gst) (l : lst) (o : oocst) (es : list ev) : option (gst * lst * list ev) :=
@@ -355,9 +359,9 @@ Definition call_fails (P : params) (t : nat) (g : gst) (l : lst) (k : opkind) (e
   end.
 
 (* the inner create / open call returns a service *)
-Definition call_succeeds (t : nat) (g : gst) (l : lst) (i : nat) (c : scfg) (nr : nat) (es : list ev)
+Definition call_succeeds (k : opkind) (t : nat) (g : gst) (l : lst) (i : nat) (c : scfg) (nr : nat) (es : list ev)
   : option (gst * lst * list ev) :=
-  op_done t g l (ROk i c) (handles l ++ [(i, c)]) nr es.
+  op_done_k k t g l (ROk i c) (handles l ++ [(i, c)]) nr es.
 
 (* open's `wait()`: elapsed > creation_timeout ? HangsInCreation : sleep, then loop *)
 Definition wait_retry (P : params) (t : nat) (g : gst) (l : lst) (es : list ev) : option (gst * lst * list ev) :=
@@ -516,11 +520,11 @@ Definition step (P : params) (t : nat) (g : gst) (l : lst) : option (gst * lst *
       end)
   | OReg j own =>                               (* registered_services().add_or(.. register_node_id ..) *)
     with_inst g j (fun x =>
-      if Nat.ltb 0 (nreg l) then call_succeeds t g l j (i_cfg x) (S (nreg l)) []
+      if Nat.ltb 0 (nreg l) then call_succeeds KOpen t g l j (i_cfg x) (S (nreg l)) []
       else if i_locked x then fail_with_tag P t g l own (KRet KOpen IsMarkedForDestruction) []
       else if N.leb (max_nodes (i_cfg x)) (lenN (i_members x))
            then fail_with_tag P t g l own (KRet KOpen ExceedsMaxNumberOfNodes) []
-      else call_succeeds t (set_inst g j (upd_reg x false (i_members x ++ [t]))) l j (i_cfg x) 1 [])
+      else call_succeeds KOpen t (set_inst g j (upd_reg x false (i_members x ++ [t]))) l j (i_cfg x) 1 [])
   (* ---- create ---- *)
   | CTagStat => Some (g, set_pc l CTagOpen, [ECall CStat BNodeDir XOk])
   | CTagOpen =>
@@ -559,7 +563,7 @@ Definition step (P : params) (t : nat) (g : gst) (l : lst) : option (gst * lst *
       else Some (set_inst g i (upd_reg x false [t]), set_pc l (CDyChmod own i), []))
   | CDyChmod own i =>                           (* version stamp, then FINAL_PERMISSIONS *)
     with_inst g i (fun x =>
-      call_succeeds t (set_inst g i (upd_dy x DFinal true)) l i (i_cfg x) 1 [ECall CChmod (BDyn i) XFinal])
+      call_succeeds KCreate t (set_inst g i (upd_dy x DFinal true)) l i (i_cfg x) 1 [ECall CChmod (BDyn i) XFinal])
   | CPanicRmStatic own i =>                     (* unwinding: the owned static config is removed, the dynamic one is not owned *)
     fail_with_tag P t (set_cur g None) l own KRetPanic [ECall CRemove BStatic XOk]
   (* ---- clean-up ---- *)
